@@ -7,7 +7,7 @@ ndjson traces, (V) TLC validates the traces against the same specification.
 Exit codes of a check: 0 = held on everything explored, 1 = VIOLATION printed,
 2 = the machinery itself failed (build error, TLC error, timeout) -- never a verdict.
 """
-import json, os, re, shutil, subprocess, sys, time, hashlib
+import json, os, re, shutil, subprocess, sys, time, hashlib, threading
 
 VERIF = os.path.dirname(os.path.dirname(os.path.abspath(__file__)))
 REPO = os.environ.get("VERIF_REPO", "/repo")
@@ -50,21 +50,32 @@ def go_bin():
     raise MachineryError("no go toolchain")
 
 
+_HARNESS_LOCK, _HARNESS_DIR = threading.Lock(), []
+
+
 def prepare_harness():
-    """go.mod of the harness points at REPO (VERIF_REPO override for self-tests); go.sum is copied from it."""
-    os.makedirs(BIN, exist_ok=True)
-    if REPO == "/repo":
-        moddir = HARNESS
-    else:  # private copy of the harness module that points at the alternative repository
-        tag = hashlib.sha1(REPO.encode()).hexdigest()[:10]
-        moddir = os.path.join(WORK, "harness-" + tag)
-        if os.path.exists(moddir):
-            shutil.rmtree(moddir)
-        shutil.copytree(HARNESS, moddir)
-        gm = open(os.path.join(moddir, "go.mod")).read().replace("=> /repo", "=> " + REPO)
-        open(os.path.join(moddir, "go.mod"), "w").write(gm)
-    shutil.copy(os.path.join(REPO, "go.sum"), os.path.join(moddir, "go.sum"))
-    return moddir
+    """go.mod of the harness points at REPO (VERIF_REPO override for self-tests); go.sum is copied from it. Once per process
+    (parts of a check run on threads and all of them build drivers)."""
+    with _HARNESS_LOCK:
+        if _HARNESS_DIR:
+            return _HARNESS_DIR[0]
+        os.makedirs(BIN, exist_ok=True)
+        if REPO == "/repo":
+            moddir = HARNESS
+        else:  # private copy of the harness module that points at the alternative repository
+            tag = hashlib.sha1(REPO.encode()).hexdigest()[:10]
+            moddir = os.path.join(WORK, "harness-" + tag)
+            if os.path.exists(moddir):
+                shutil.rmtree(moddir)
+            shutil.copytree(HARNESS, moddir)
+            gm = open(os.path.join(moddir, "go.mod")).read().replace("=> /repo", "=> " + REPO)
+            open(os.path.join(moddir, "go.mod"), "w").write(gm)
+        shutil.copy(os.path.join(REPO, "go.sum"), os.path.join(moddir, "go.sum"))
+        _HARNESS_DIR.append(moddir)
+        return moddir
+
+
+_BUILD_GUARD, _BUILD_LOCKS, _BUILT = threading.Lock(), {}, set()
 
 
 def build(pkg, name=None, tags="purego,verif", testmode=False, race=False):
@@ -81,11 +92,18 @@ def build(pkg, name=None, tags="purego,verif", testmode=False, race=False):
     if race:
         cmd.insert(2, "-race")
         env["CGO_ENABLED"] = "1"
-    t = time.time()
-    r = subprocess.run(cmd, cwd=moddir, env=env, capture_output=True, text=True)
-    if r.returncode != 0:
-        raise MachineryError("go build failed: %s\n%s" % (" ".join(cmd), r.stderr[-4000:]))
-    log("[build] %s in %.1fs" % (os.path.basename(out), time.time() - t))
+    # one build per binary and process: parts of a check that run on threads (prod_common.background) ask for the same driver
+    with _BUILD_GUARD:
+        lock = _BUILD_LOCKS.setdefault(out, threading.Lock())
+    with lock:
+        if out in _BUILT:
+            return out
+        t = time.time()
+        r = subprocess.run(cmd, cwd=moddir, env=env, capture_output=True, text=True)
+        if r.returncode != 0:
+            raise MachineryError("go build failed: %s\n%s" % (" ".join(cmd), r.stderr[-4000:]))
+        log("[build] %s in %.1fs" % (os.path.basename(out), time.time() - t))
+        _BUILT.add(out)
     return out
 
 
